@@ -382,8 +382,13 @@ class DecimalFieldFormat(AbstractFieldFormat):
     def __init__(self, field_name, is_allowed_to_be_empty, length_text, rule, data_format, empty_value=None):
         super().__init__(field_name, is_allowed_to_be_empty, "", "", data_format, empty_value)
         assert rule is not None, 'to specify "no rule" use "" instead of None'
-        self.decimal_separator = data_format.decimal_separator
-        self.thousands_separator = data_format.thousands_separator
+        if data_format.format in (data.FORMAT_DELIMITED, data.FORMAT_FIXED):
+            self.decimal_separator = data_format.decimal_separator
+            self.thousands_separator = data_format.thousands_separator
+        else:
+            # Excel and ODS data formats have no separator properties; use the defaults.
+            self.decimal_separator = "."
+            self.thousands_separator = ""
         self.valid_range = ranges.DecimalRange(rule, ranges.DEFAULT_DECIMAL_RANGE_TEXT)
         self._length = ranges.DecimalRange(length_text)
 
